@@ -295,3 +295,42 @@ def rule_fanout_loops(rep: Report, rule: str, root: Fn) -> int:
                        f"{g.qual}: the loop over `{u(nd.iter)}` calls `{u(c.func)}` on `{recv}`, not on its loop variable "
                        f"`{nd.target.id}`: one subject receives the notification once per open window / group, the others never do")
     return n
+
+
+_MUTATORS = {"append", "pop", "popleft", "remove", "clear", "insert", "extend", "appendleft", "popitem", "add", "discard", "update", "setdefault"}
+
+
+def rule_no_mutation_while_iterating(rep: Report, rule: str, root: Fn) -> int:
+    """A loop over a collection does not add to / remove from that collection in its own body (every other element
+    would be skipped, or the iteration raises)."""
+    n = 0
+    for g in root.walk():
+        if not g.is_func:
+            continue
+        for nd in g.direct_nodes():
+            if not isinstance(nd, ast.For):
+                continue
+            it = nd.iter
+            base = None
+            if isinstance(it, ast.Name):
+                base = it.id
+            elif isinstance(it, ast.Call) and isinstance(it.func, ast.Attribute) and it.func.attr in ("values", "items", "keys") and isinstance(it.func.value, ast.Name):
+                base = it.func.value.id
+            if base is None:
+                continue
+            n += 1
+            muts = []
+            for st in nd.body:
+                for x in ast.walk(st):
+                    if isinstance(x, (ast.FunctionDef, ast.Lambda)):
+                        continue
+                    if isinstance(x, ast.Call) and isinstance(x.func, ast.Attribute) and x.func.attr in _MUTATORS and isinstance(x.func.value, ast.Name) and x.func.value.id == base:
+                        muts.append(x)
+                    if isinstance(x, ast.Delete) and any(isinstance(t, ast.Subscript) and isinstance(t.value, ast.Name) and t.value.id == base for t in x.targets):
+                        muts.append(x)
+            # a mutation directly followed by leaving the loop is fine (`del d[k]; break`)
+            leaves = any(isinstance(st, (ast.Break, ast.Return)) for st in nd.body)
+            rep.ob(rule, g, f"{g.qual}: `for {u(nd.target)} in {short(it, 30)}` does not change `{base}` in its body", not muts or leaves,
+                   f"{g.qual} changes `{base}` ({[short(x, 30) for x in muts]}) inside the loop that iterates it: every other element is skipped "
+                   f"(lists) or the iteration raises (dicts / deques) -- the skipped windows / groups never receive the notification")
+    return n
